@@ -40,6 +40,7 @@ type Options struct {
 }
 
 type fn struct {
+	helpers map[*types.Func]*helperInfo
 	pkg    *packages.Package
 	info   *types.Info
 	fd     *ast.FuncDecl
@@ -145,6 +146,11 @@ func (f *fn) isConversion(c *ast.CallExpr) bool {
 // arguments (min/max/abs helpers, math functions, Ilaenv/Iparmq).
 func (f *fn) pureScalarCall(c *ast.CallExpr) bool {
 	if f.isConversion(c) || f.isBuiltin(c, "len", "cap", "min", "max") {
+		return true
+	}
+	if f.helperCall(c) != nil {
+		// a validation helper only reads its arguments; what it returns
+		// (flags, derived dimensions) is a function of the scalar arguments
 		return true
 	}
 	fnobj := typeutil.Callee(f.info, c)
@@ -335,6 +341,12 @@ func (f *fn) prepare() {
 					var r ast.Expr
 					if len(s.Lhs) == len(s.Rhs) {
 						r = s.Rhs[i]
+					} else if len(s.Rhs) == 1 {
+						// a, b := helper(…): every result of a pure scalar
+						// call derives from the call's arguments
+						if c, ok := s.Rhs[0].(*ast.CallExpr); ok && f.pureScalarCall(c) {
+							r = c
+						}
 					}
 					if assign(s.Lhs[i], r) {
 						changed = true
@@ -467,6 +479,168 @@ func (f *fn) exprDeps(e ast.Expr) (map[types.Object]bool, bool) {
 }
 
 // check is an argument-check panic site.
+// A validation helper is an unexported function of the analysed package whose
+// body only tests its arguments and panics with the package's errors.go
+// constants: no stores, no copy, no calls other than len/cap/min/max/abs,
+// conversions, panic and other validation helpers. A call to one is treated
+// as the argument checks it contains: its arguments are validated there, a
+// slice whose length it tests has passed a length branch, and (for
+// ARGS.order) the call site is a check site. This keeps the rules stable
+// when a prologue is moved into a helper.
+type helperInfo struct {
+	checked map[int]bool // parameter index occurs in a condition
+	lens    map[int]bool // len(parameter) occurs in a condition
+}
+
+func validationHelpers(pkg *packages.Package, errs map[types.Object]bool) map[*types.Func]*helperInfo {
+	info := pkg.TypesInfo
+	cand := map[*types.Func]*ast.FuncDecl{}
+	for _, file := range pkg.Syntax {
+		for _, d := range file.Decls {
+			fd, ok := d.(*ast.FuncDecl)
+			if !ok || fd.Body == nil || fd.Name.IsExported() {
+				continue
+			}
+			if fn, ok := info.Defs[fd.Name].(*types.Func); ok {
+				cand[fn] = fd
+			}
+		}
+	}
+	out := map[*types.Func]*helperInfo{}
+	// iterate so that helpers may call helpers
+	for changed := true; changed; {
+		changed = false
+		for fn, fd := range cand {
+			if out[fn] != nil {
+				continue
+			}
+			pure, panics := true, false
+			ast.Inspect(fd.Body, func(n ast.Node) bool {
+				switch x := n.(type) {
+				case *ast.AssignStmt:
+					for _, l := range x.Lhs {
+						if _, ok := l.(*ast.Ident); !ok {
+							pure = false
+						}
+					}
+				case *ast.IncDecStmt:
+					if _, ok := x.X.(*ast.Ident); !ok {
+						pure = false
+					}
+				case *ast.GoStmt, *ast.DeferStmt, *ast.FuncLit:
+					pure = false
+				case *ast.CallExpr:
+					if tv, ok := info.Types[x.Fun]; ok && tv.IsType() {
+						return true
+					}
+					switch f := x.Fun.(type) {
+					case *ast.Ident:
+						switch f.Name {
+						case "len", "cap", "min", "max", "abs":
+							return true
+						case "panic":
+							if len(x.Args) == 1 {
+								if id, ok := x.Args[0].(*ast.Ident); ok && errs[core.ObjOf(info, id)] {
+									panics = true
+									return true
+								}
+							}
+							pure = false
+							return true
+						}
+						if callee, ok := core.ObjOf(info, f).(*types.Func); ok && out[callee] != nil {
+							panics = true
+							return true
+						}
+					}
+					pure = false
+				}
+				return pure
+			})
+			if !pure || !panics {
+				continue
+			}
+			hi := &helperInfo{checked: map[int]bool{}, lens: map[int]bool{}}
+			idx := map[types.Object]int{}
+			k := 0
+			for _, fl := range fd.Type.Params.List {
+				for _, nm := range fl.Names {
+					idx[info.Defs[nm]] = k
+					k++
+				}
+			}
+			note := func(cond ast.Expr) {
+				ast.Inspect(cond, func(n ast.Node) bool {
+					switch x := n.(type) {
+					case *ast.CallExpr:
+						if id, ok := x.Fun.(*ast.Ident); ok && (id.Name == "len" || id.Name == "cap") && len(x.Args) == 1 {
+							if aid, ok := x.Args[0].(*ast.Ident); ok {
+								if i, ok := idx[core.ObjOf(info, aid)]; ok {
+									hi.lens[i] = true
+									hi.checked[i] = true
+								}
+							}
+						}
+					case *ast.Ident:
+						if i, ok := idx[core.ObjOf(info, x)]; ok {
+							hi.checked[i] = true
+						}
+					}
+					return true
+				})
+			}
+			ast.Inspect(fd.Body, func(n ast.Node) bool {
+				switch x := n.(type) {
+				case *ast.IfStmt:
+					note(x.Cond)
+				case *ast.CaseClause:
+					for _, e := range x.List {
+						note(e)
+					}
+				case *ast.SwitchStmt:
+					if x.Tag != nil {
+						note(x.Tag)
+					}
+				case *ast.CallExpr:
+					// arguments handed on to a nested helper
+					if f, ok := x.Fun.(*ast.Ident); ok {
+						if callee, ok := core.ObjOf(info, f).(*types.Func); ok && out[callee] != nil {
+							for ai, a := range x.Args {
+								if out[callee].checked[ai] {
+									note(a)
+								}
+								if out[callee].lens[ai] {
+									if aid, ok := a.(*ast.Ident); ok {
+										if i, ok := idx[core.ObjOf(info, aid)]; ok {
+											hi.lens[i] = true
+										}
+									}
+								}
+							}
+						}
+					}
+				}
+				return true
+			})
+			out[fn] = hi
+			changed = true
+		}
+	}
+	return out
+}
+
+// helperCall resolves a call to a validation helper.
+func (f *fn) helperCall(c *ast.CallExpr) *helperInfo {
+	if f.helpers == nil {
+		return nil
+	}
+	callee, _ := typeutil.Callee(f.info, c).(*types.Func)
+	if callee == nil {
+		return nil
+	}
+	return f.helpers[callee]
+}
+
 type check struct {
 	call   *ast.CallExpr
 	cname  string
@@ -480,6 +654,35 @@ func (f *fn) checks() []*check {
 	var out []*check
 	ast.Inspect(f.fd.Body, func(n ast.Node) bool {
 		c, ok := n.(*ast.CallExpr)
+		if ok {
+			if hi := f.helperCall(c); hi != nil {
+				ck := &check{call: c, cname: types.ExprString(c.Fun), deps: map[types.Object]bool{}}
+				for i, a := range c.Args {
+					if !hi.checked[i] {
+						continue
+					}
+					d, _ := f.exprDeps(a)
+					for p := range d {
+						ck.deps[p] = true
+					}
+					for r := range f.roots(a) {
+						ck.deps[r] = true
+					}
+				}
+				// conditions the call itself is nested under
+				var child ast.Node = c
+				for p := f.par[c]; p != nil && p != f.fd.Body; child, p = p, f.par[p] {
+					if s, ok := p.(*ast.IfStmt); ok && (child == s.Body || child == s.Else) {
+						ck.conds = append(ck.conds, s.Cond)
+						if _, isData := f.exprDeps(s.Cond); isData {
+							ck.data = true
+						}
+					}
+				}
+				out = append(out, ck)
+				return true
+			}
+		}
 		if !ok || !cfgx.IsPanic(f.info, c) || len(c.Args) != 1 {
 			return true
 		}
@@ -586,7 +789,7 @@ func (f *fn) writeSites(includeWork bool) []writeSite {
 			if f.isBuiltin(s, "len", "cap", "panic", "append", "min", "max") || f.isConversion(s) {
 				return true
 			}
-			if f.isQueryCall(s) {
+			if f.isQueryCall(s) || f.helperCall(s) != nil {
 				return true
 			}
 			for _, a := range s.Args {
@@ -658,9 +861,10 @@ func (f *fn) useSites() []useSite {
 				}
 				return true
 			}
-			if f.delegatesValidation(s) {
+			if f.delegatesValidation(s) || f.helperCall(s) != nil {
 				// The whole slice handed to a routine that is itself
-				// subject to ARGS.lencheck: validation is delegated.
+				// subject to ARGS.lencheck (or to a validation helper):
+				// validation is delegated.
 				return true
 			}
 			for _, a := range s.Args {
@@ -788,9 +992,20 @@ func Run(cfg core.Config, scope core.Scope, opts Options) *core.Result {
 	return res
 }
 
+var helperCache = map[*packages.Package]map[*types.Func]*helperInfo{}
+
+func helpersOf(pkg *packages.Package, errs map[types.Object]bool) map[*types.Func]*helperInfo {
+	if h, ok := helperCache[pkg]; ok {
+		return h
+	}
+	h := validationHelpers(pkg, errs)
+	helperCache[pkg] = h
+	return h
+}
+
 func analyse(res *core.Result, pkg *packages.Package, fd *ast.FuncDecl, errs map[types.Object]bool, opts *Options, usedExempt map[string]bool) {
 	f := &fn{pkg: pkg, info: pkg.TypesInfo, fd: fd, name: core.FuncName(pkg, fd), short: fd.Name.Name, res: res, opts: opts,
-		slices: map[types.Object]bool{}, work: map[types.Object]bool{}, errs: errs}
+		slices: map[types.Object]bool{}, work: map[types.Object]bool{}, errs: errs, helpers: helpersOf(pkg, errs)}
 	obj := pkg.TypesInfo.Defs[fd.Name].(*types.Func)
 	sig := obj.Type().(*types.Signature)
 	for i := 0; i < sig.Params().Len(); i++ {
@@ -911,7 +1126,29 @@ func analyse(res *core.Result, pkg *packages.Package, fd *ast.FuncDecl, errs map
 			p := p
 			checked[p] = f.g.MustPass(func(b *cfg.Block) bool {
 				c := cfgx.Cond(b)
-				return c != nil && f.mentionsLen(c, p)
+				if c != nil && f.mentionsLen(c, p) {
+					return true
+				}
+				// a validation helper that tests len of the argument rooted at p
+				for _, n := range b.Nodes {
+					found := false
+					ast.Inspect(n, func(x ast.Node) bool {
+						if call, ok := x.(*ast.CallExpr); ok {
+							if hi := f.helperCall(call); hi != nil {
+								for i, a := range call.Args {
+									if hi.lens[i] && f.roots(a)[p] {
+										found = true
+									}
+								}
+							}
+						}
+						return !found
+					})
+					if found {
+						return true
+					}
+				}
+				return false
 			})
 		}
 		for _, u := range uses {
